@@ -184,7 +184,7 @@ def main(argv=None):
             undecided.append(f"{fr['target']}: unsupported construct: {fr['unsupported'][0]}")
         if fr.get("truncated"):
             undecided.append(f"{fr['target']}: path budget exhausted")
-        if fr.get("paths", 0) == 0 and not fr.get("unsupported"):
+        if fr.get("paths", 0) == 0 and not fr.get("unsupported") and not any(o["status"] == "failed" for o in fr["obligations"]):
             errors.append(f"{fr['target']}: vacuity guard: no feasible path (contradictory precondition?)")
         any_failed = any(o["status"] == "failed" for o in fr["obligations"])
         for cov, ok in (fr.get("covers") or {}).items():
